@@ -39,6 +39,30 @@ struct tr_intr_cnt : public tr_intr {
 
 static int g_vals[1024];
 
+// watchdog: a case whose threads spin for ever after the step limit (possible only when the code under test is
+// broken) is reported as "endcase hang" with the log so far and the process exits; the check re-runs the
+// remaining cases.
+#include <chrono>
+#include <unistd.h>
+static std::atomic<long long> g_deadline_ms( 0 );
+static vcase::Case const * volatile g_current = nullptr;
+static long long now_ms() { return std::chrono::duration_cast<std::chrono::milliseconds>( std::chrono::steady_clock::now().time_since_epoch()).count(); }
+static void watchdog()
+{
+    for (;;) {
+        std::this_thread::sleep_for( std::chrono::milliseconds( 100 ));
+        long long d = g_deadline_ms.load();
+        if ( d != 0 && now_ms() > d ) {
+            vcase::Case const * c = g_current;
+            std::printf( "case %s\n", c ? c->id.c_str() : "?" );
+            for ( auto const& l : vs::S().log ) { std::fputs( l.c_str(), stdout ); std::fputc( '\n', stdout ); }
+            std::printf( "endcase hang\n" );
+            std::fflush( stdout );
+            _exit( 0 );
+        }
+    }
+}
+
 template <typename Q>
 struct container_api {
     static bool enq( Q& q, long v ) { return q.enqueue( (int) v ); }
@@ -58,6 +82,8 @@ template <typename Q, typename Api>
 void run_case( vcase::Case const& c, size_t cap, bool has_front )
 {
     std::unique_ptr<Q> q( new Q( cap ));
+    g_current = &c;
+    g_deadline_ms.store( now_ms() + 4000 );
     vcase::run_workers( c, [&]( int t ) {
         for ( auto const& op : c.threads[t] ) {
             switch ( op[0] ) {
@@ -110,6 +136,8 @@ void run_case( vcase::Case const& c, size_t cap, bool has_front )
         while ( n < 4096 && Api::deq( *q, v )) { std::printf( " %ld", v ); ++n; }
         std::printf( "\n" );
     }
+    q.reset();
+    g_deadline_ms.store( 0 );
 }
 
 int main( int argc, char** argv )
@@ -117,6 +145,7 @@ int main( int argc, char** argv )
     if ( argc < 2 ) { std::fprintf( stderr, "usage: %s casefile\n", argv[0] ); return 2; }
     for ( int i = 0; i < 1024; ++i ) g_vals[i] = i;
     std::ifstream in( argv[1] );
+    std::thread( watchdog ).detach();
     vcase::Case c;
     while ( vcase::read_case( in, c )) {
         size_t cap = c.cfg.size() > 0 ? (size_t) c.cfg[0] : 2;
